@@ -548,6 +548,16 @@ class C02(AstKindProp):
         res = AstKindProp.corr(self, c, run)
         from doctrans import ast_utils, parse
 
+        # the WHOLE kind at statement level (ClassKind.lean: emit.class_ -> text -> parse.class_, every statement modelled)
+        # against the real round trip of this very case
+        if not c["opts"].get("word_wrap") and not c["opts"].get("emitted_before"):
+            try:
+                _, _, back = self.conv(c)
+                implk = {"ok": irutil.canon_ir(_canon_types_ir(irutil.ir_to_json(back)))}
+            except Exception as e:
+                implk = {"raises": exc_kind(e)}
+            res.append(("class_kind", {"op": "class_kind", "ir": c["ir"], "emit": bool(c["opts"].get("emit_default_doc", True))}, implk))
+
         from .common import val_of_json, val_to_json
 
         for n, p, _ in _entries(c["ir"]):
@@ -582,6 +592,8 @@ class C02(AstKindProp):
         return res
 
     def canon_model(self, layer, op, ans):
+        if layer == "class_kind":
+            return {"ok": irutil.canon_ir(_canon_types_ir(ans["ok"]))} if "ok" in ans else ans
         if layer == "param2ast" and "ok" in ans:
             return {"ok": _canon_attr(ans["ok"])}
         if layer == "class_attr" and "ok" in ans:
